@@ -97,10 +97,17 @@ class VArr:
             return VArr(self.vals[k], self.dtype)
         return self.vals[k]
 
-    def astype(self, dt):
+    def astype(self, dt, *a, **k):
         if not isinstance(dt, IDtype):
-            raise StubGap('astype target')
+            # a real numpy integer dtype / scalar type (what ChannelItem.cast_dtype holds)
+            nm = getattr(dt, 'name', None) or getattr(dt, '__name__', None)
+            if nm not in BITS:
+                raise StubGap(f'astype target {dt!r}')
+            dt = IDtype(nm)
         return VArr([wrap(v, dt) for v in self.vals], dt)
+
+    def copy(self):
+        return VArr(self.vals, self.dtype)
 
     def min(self):
         m = self.vals[0]
@@ -148,6 +155,12 @@ class VArr:
 
     def __abs__(self):
         return VArr([(v if v >= 0 else -v) for v in self.vals], self.dtype)
+
+
+def asarray(a, *args, **kw):
+    if isinstance(a, VArr):
+        return a
+    raise StubGap('asarray of a non-array')
 
 
 def diff(a):
